@@ -78,8 +78,9 @@ def seedParamOk (rows : List (String × Bool × Bool × Bool)) : Bool :=
 
 /-- the callers: `CreateSamplingMask.__call__` derives the seed from the file name only, passes the same `shape` and
 `seed` to the mask request (`return_acs=False`) and the ACS request (`return_acs=True`), draws nothing itself;
-`integerize_seed` returns every int (0 included) unchanged -/
-def plumbingOk (rows : List (String × Bool)) : Bool := decide (rows.length = 5) && rows.all (·.2)
+`integerize_seed` returns every int (0 included) unchanged; `BaseMaskFunc.__init__` stores the configured centre fractions
+and accelerations as given -/
+def plumbingOk (rows : List (String × Bool)) : Bool := decide (rows.length = 7) && rows.all (·.2)
 
 /-! ## from a configured pair to the ACS specification -/
 
